@@ -122,6 +122,10 @@ def patch():
     _PATCHED = True
     import cylc.flow.task_action_timer as _tat
     import cylc.flow.xtriggers.wall_clock as _wc
+    # the server thread gets 10 s to come up: far too tight when 16 cores are shared by dozens of runs
+    import threading as _th
+    import cylc.flow.scheduler as _sm
+    _sm.Barrier = lambda parties, timeout=None: _th.Barrier(parties, timeout=180)
     _tat.time = lambda: _time.time() + VCLOCK["off"]
     _wc.time = lambda: _time.time() + VCLOCK["off"]
     from cylc.flow.task_pool import TaskPool
